@@ -650,6 +650,7 @@ def run(ctx):
     ctx.assumptions += ['library predicates are pure: repeated calls on the same script return the same value']
     ctx.guard('inventory', rule_inventory)
     ctx.guard('opaque', rule_opaque)
-    ctx.floor('inventory', 40 if ctx.profile == 'dev' else 15)
+    # vacuity guard, deliberately below today's count (53 dev / 23 release): removing a panic site is a legitimate edit
+    ctx.floor('inventory', 30 if ctx.profile == 'dev' else 12)
     ctx.floor('invariant', 3)
     ctx.floor('opaque', 6)
